@@ -3,13 +3,13 @@
 import json, re, subprocess
 
 CLAIMED = {
- "C01": ("sess", "7 C01", "seeded simulation of add/union/probe histories under sampled hash order, fresh stride, buggify, probes, naming (incl. the name of the very next fresh slot) and handle age, a third of the runs with an Analysis attached (two kinds of worklist entries); every equality the e-graph reports (all relative renamings of all tracked pairs in one class, all dropped slots) must be derivable in the brute-force ground nominal congruence closure M_cc with pool 3m+1 (alarms re-derived with pool +2/+4 before reporting)",
+ "C01": ("sess", "7 C01", "seeded simulation of add/union/probe histories under sampled hash order, fresh stride, buggify, probes, naming (incl. the name of the very next fresh slot) and handle age, a third of the runs with an Analysis attached (two kinds of worklist entries), half of those with a modify hook (g(s, x) = x: unions from inside add; M_cc is given the schema for every tracked g-term); every equality the e-graph reports (all relative renamings of all tracked pairs in one class, all dropped slots) must be derivable in the brute-force ground nominal congruence closure M_cc with pool 3m+1 (alarms re-derived with pool +2/+4 before reporting)",
          "M_cc (sim/src/oracle/cc.rs) encodes the intended semantics; pool-size bound 3m+1 is an argument guarded by escalation; sampling"),
  "C02": ("sess", "7 C02", "same runs (incl. the runs with an Analysis and the parallel-contexts bias: two parents C[A], C[B] with an asymmetric sibling, then A = B and a symmetry), opposite direction, checked immediately after every union returns: every pair M_cc derives (enumerated from the oracle's classes) must compare equal, every M_cc-redundant slot must be gone from find_applied_id",
          "any pool size is sound for this direction; sampling of instances above 12 per term"),
  "C08": ("sess", "7 C08", "seeded simulation in the default and the checks build: after every single operation (sess histories over LS, one in ten over 6-12 slots with classes of up to 12 parameters, a third with an Analysis; part C08R: rewriting, Runner, raw and self-referential unions over LA with an Analysis and its modify hook; extraction as a probe) no panic / fuel exhaustion / process crash, EGraph::check passes, every listed e-node looks up to its class, no e-node shape in two live classes, e-node slots cover class slots, find is idempotent; faults K1-K5 incl. mid-history probes and skipped path compression",
          "fuel limit 20000000 rebuild ticks per operation stands in for non-termination (2500 + discard in the checks build); runs exceeding the combinatorial work budget are discarded; sampling"),
- "C09": ("sess", "7 C09", "seeded sess histories followed by candidate terms that are known-present (alpha-renamed, injectively renamed, a subterm replaced by an M_cc-equal instance), known-absent or unknown: lookup_rec_expr succeeds exactly when add_expr creates no class, both agree with the existing invocation, returned slots = free slots minus M_cc-redundant ones, lookup leaves the fingerprint unchanged; part C09R: after every iteration of the LA rewriting workload inserted terms (alpha-renamed) and the smallest term of their class are looked up and inserted again (found, equal to the old handle, no class allocated, canonical slots)",
+ "C09": ("sess", "7 C09", "seeded sess histories followed by candidate terms that are known-present (alpha-renamed, injectively renamed, a subterm replaced by an M_cc-equal instance), known-absent or unknown; and (one run in 40) parents over a symmetric leaf with up to 24^3 group-compatible variants, judged by brute-force subgroup closure: lookup_rec_expr succeeds exactly when add_expr creates no class, both agree with the existing invocation, returned slots = free slots minus M_cc-redundant ones, lookup leaves the fingerprint unchanged; part C09R: after every iteration of the LA rewriting workload inserted terms (alpha-renamed) and the smallest term of their class are looked up and inserted again (found, equal to the old handle, no class allocated, canonical slots)",
          "M_cc decides 'already represented' and redundancy; sampling"),
  "C10": ("grp+sess", "7 C10", "generator sets on up to 4 slots enumerated completely (quick: up to 2 generators on 4 slots, 3 on 3; thorough: all triples on 4 slots), random sets on 4-6 slots; through unions on a k-slot leaf (eq for every permutation of S_k after every union), through a redundancy path (a slot of the symmetric leaf is made redundant; old and new handles against M_cc) and through the cfg-guarded group wrapper (contains, all_perms, count, orbit, add_set growth), each under sampled hash order, stride, naming, buggify and generator order, against brute-force subgroup closure",
          "brute-force closure M_group; exhaustive only in the enumerated generator dimension, schedules are sampled"),
@@ -21,15 +21,15 @@ CLAIMED = {
          "sampling of recorded pairs (<= 600 per run)"),
  "C17": ("thr", "7 C17", "1-4 real threads under a baton scheduler that decides every context switch from an explicit schedule; programs of fresh / numeric / named with adversarial names / print-then-parse; per-thread slot-table model (fresh is new, names functional and injective, print-parse identity) and comparison of each thread's observations with the same program run alone",
          "per-thread model M_slot; panics 'fresh slot counter exhausted' are legitimate (u32 counter); sampling"),
- "C03": ("rw", "7 C03", "seeded start terms over LA (arithmetic mod p in {3,5,7}; a summation binder over {0,1}, a let binder, a weighted sum whose first child precedes its binder; many start terms are instances of rule left sides), 1-6 iterations of apply_rewrites or Runner::run with seeded subsets of 35 model-valid rules (validated against M_field at start-up; conditional rules through the simulator's own condition and through the crate's Rewrite::new_if / and / not / slot_free_in; two rules conditioned on EGraph::eq of two bindings with paired true/false instances in one e-graph; the substitution form b[x := t]; a repeated free pattern slot; near-instances of repeated-variable rules whose second occurrence has permuted slots; a third user slot in a quarter of the runs; in a third of the runs unconditional rules are built by the crate's Rewrite::new), both substitution methods, constant-folding modify hook, probes from inside appliers and Analysis::make; after every iteration every e-node of every class (<= 3 slots) is evaluated against its class table under all environments and two assignments of its redundant slots, every inserted term is evaluated directly",
+ "C03": ("rw", "7 C03", "seeded start terms over LA (arithmetic mod p in {3,5,7}; a summation binder over {0,1}, a let binder, a weighted sum whose first child precedes its binder; many start terms are instances of rule left sides), 1-6 iterations of apply_rewrites or Runner::run with seeded subsets of 35 model-valid rules (validated against M_field at start-up; conditional rules through the simulator's own condition and through the crate's Rewrite::new_if / and / not / slot_free_in; two rules conditioned on EGraph::eq of two bindings with paired true/false instances in one e-graph; the substitution form b[x := t]; a repeated free pattern slot; near-instances of repeated-variable rules whose second occurrence has permuted slots; a third user slot in a quarter of the runs; in a third of the runs unconditional rules are built by the crate's Rewrite::new; in a quarter the Rewrite values are built once per run and applied at every step), both substitution methods, constant-folding modify hook, probes from inside appliers and Analysis::make; after every iteration every e-node of every class (<= 3 slots) is evaluated against its class table under all environments and two assignments of its redundant slots, every inserted term is evaluated directly",
          "M_field evaluator and table construction (sim/src/oracle/field.rs); classes with more than 3 slots or without a finite term are not evaluated; sampling"),
  "C04": ("rw", "7 C04", "seeded left/right patterns over LS, a planted instance (literal, only up to equality via a balanced union, with a symmetric child, or with a repeated variable whose occurrences are equal only through an asserted symmetry), optionally in a class made bigger by further balanced unions, optional auxiliary rule that merges the matched class away inside the same call, rule built with the crate's Rewrite::new in half of the runs, the same Rewrite values applied to a second e-graph first in a quarter of the runs; after one apply_rewrites the right instance must be represented and equal to the left instance; scale scenario (one run in 1500): 1200-6200 instances of one left side in one call, every one must fire",
          "scope as in the statement (bound slots bound once and not used free; e-graphs with a redundant slot are skipped and counted); additionally the right side introduces no free slot that the left side lacks (such a slot is quantified independently of slots hidden in variable bindings); sampling"),
- "C05": ("rw", "7 C05", "seeded sess histories, then patterns abstracted from the history's terms (repeated variables, binders, two slots identified non-injectively, e-node patterns whose children share slots) and multi-patterns with shuffled equations; every returned substitution is validated by bottom-up lookup (plus eq per equation for multi-patterns); fingerprint unchanged by matching; part C05R: the same validation for the left patterns of the LA rule pool after every iteration of the rewriting workload",
+ "C05": ("rw", "7 C05", "seeded sess histories, then patterns abstracted from the history's terms (repeated variables, binders, two slots identified non-injectively, e-node patterns whose children share slots) and multi-patterns with shuffled equations (a second root that shares child variables, leaf equations, two slots identified across the whole multi-pattern); every returned substitution is validated by bottom-up lookup (plus eq per equation for multi-patterns); fingerprint unchanged by matching; part C05R: the same validation for the left patterns of the LA rule pool after every iteration of the rewriting workload",
          "multi-patterns are built through the crate's MultiPattern::parse (its fields are private); sampling"),
  "C06": ("sess", "7 C06", "seeded long histories over LS and rewriting runs over LA (part C06R) (cyclic classes, redundant slots, symmetric classes), three strictly monotone cost functions; every live class with a finite term is extracted under the identity, a renamed and an own-slot-permuting invocation, one with the numeric shape names $0, $1, .. as arguments, one whose argument is spelled like a bound slot shown by an earlier result of the same extractor and one whose argument is spelled like the very next fresh slot; a stack overflow or abort inside extraction is attributed and reported; membership by lookup_rec_expr + eq, cost recomputed on the term, minimality against value iteration M_cost, free slots of the result",
          "M_cost value iteration over enodes(); classes without a finite term are out of scope; sampling"),
- "C07": ("expl", "7 C07", "explanations build: seeded histories with add_syn_expr / union_justified, (part C07R) single rule applications on planted instances, and (part C07S) saturation runs over LA (apply_rewrites / Runner::run with the C03 rule pool, conditional rules, rules that move terms under binders) after which inserted terms are explained against the smallest term of their class and against each other; for sampled equal pairs under all relative renamings, and for congruent query terms that were never inserted, explain_equivalence must return and the proof DAG is re-checked node by node on terms by the independent checker M_proof; explicit leaves must be instances of an asserted equation or of the applied rule, with their justification; the conclusion must be the queried pair",
+ "C07": ("expl", "7 C07", "explanations build: seeded histories with add_syn_expr / union_justified (a quarter of them after another e-graph with the same class ids but other equations and justifications lived and died in the same thread), (part C07R) single rule applications on planted instances, and (part C07S) saturation runs over LA (apply_rewrites / Runner::run with the C03 rule pool, conditional rules, rules that move terms under binders) after which inserted terms are explained against the smallest term of their class and against each other; for sampled equal pairs under all relative renamings, and for congruent query terms that were never inserted, explain_equivalence must return and the proof DAG is re-checked node by node on terms by the independent checker M_proof; explicit leaves must be instances of an asserted equation or of the applied rule, with their justification; the conclusion must be the queried pair",
          "M_proof reads proofs only through ProvenEqRaw::proof/equ and get_syn_expr; C07S runs without the b[x := t] rule and without the modify hook; sampling"),
  "C14": ("rw", "7 C14", "seeded LA histories of insertions, raw unions (runs without modify) and rewrite iterations with the simulator's analysis (min size, min depth, constant mod p with modify hook, a bounded height joined with max that grows along cycles); after every operation every live class's datum is recomputed as the join of make over its e-nodes, size equals value-iteration min cost, constants equal the class's model table, equal invocations share one datum",
          "in runs with raw (not model-valid) unions the constant component is excluded (make is not monotone once two constants are joined); sampling"),
